@@ -100,6 +100,7 @@ type FuncEnc struct {
 	StoreHook        func(e *FuncEnc, in ssa.Instruction, target ssa.Value)
 	OnReturn         func(e *FuncEnc, ret *ssa.Return, results []string)
 	PostEncode       func()
+	stableFV         map[*ssa.FreeVar]string
 }
 
 type loopInfo struct {
@@ -530,6 +531,7 @@ func (e *FuncEnc) init() {
 	e.privateLeaves = map[*ssa.Alloc][]leafAddr{}
 	e.globals = map[string]bool{}
 	e.closures = map[*ssa.MakeClosure]bool{}
+	e.stableFV = map[*ssa.FreeVar]string{}
 	e.deferReach = map[*ssa.Defer]string{}
 }
 
@@ -554,11 +556,14 @@ func (e *FuncEnc) Encode() {
 		e.params[p.Name()] = s
 		e.paramFacts(s, p.Type())
 	}
-	for _, fv := range fn.FreeVars {
+	for i, fv := range fn.FreeVars {
 		s := e.newSym("fv_"+mangle(fv.Name()), e.D.SortOf(fv.Type()))
 		e.val[fv] = s
 		e.params[fv.Name()] = s
-		e.assume("true", fmt.Sprintf("(and (> %s 0) (< (atime %s) T0))", s, s))
+		if _, isPtr := fv.Type().Underlying().(*types.Pointer); isPtr {
+			e.assume("true", fmt.Sprintf("(and (> %s 0) (< (atime %s) T0))", s, s))
+			e.freeVarCellFacts(i, fv, s, st)
+		}
 	}
 	e.entry = st.clone()
 	e.cur = st
@@ -797,4 +802,164 @@ func (e *FuncEnc) finishBlock(b *ssa.BasicBlock, cond string) {
 		_ = i
 		e.checkInvariants(b, s, li, e.backEdge[[2]int{b.Index, s.Index}])
 	}
+}
+
+// freeVarCellFacts: a captured variable cell whose only stores (in the
+// enclosing function and its closures) are syntactically non-nil values, or a
+// parameter that the environment guarantees non-nil, holds a non-nil value.
+func (e *FuncEnc) freeVarCellFacts(idx int, fv *ssa.FreeVar, cell string, st *state) {
+	parent := e.Fn.Parent()
+	if parent == nil {
+		return
+	}
+	// find the binding of this free variable
+	var bound ssa.Value
+	var scan func(f *ssa.Function)
+	scan = func(f *ssa.Function) {
+		for _, b := range f.Blocks {
+			for _, in := range b.Instrs {
+				if mc, ok := in.(*ssa.MakeClosure); ok && mc.Fn == e.Fn && idx < len(mc.Bindings) {
+					bound = mc.Bindings[idx]
+				}
+			}
+		}
+	}
+	scan(parent)
+	// the binding may itself be a free variable of the parent (nested closures)
+	depth := 0
+	for bound != nil && depth < 4 {
+		pfv, ok := bound.(*ssa.FreeVar)
+		if !ok {
+			break
+		}
+		pp := pfv.Parent().Parent()
+		if pp == nil {
+			return
+		}
+		pi := -1
+		for j, x := range pfv.Parent().FreeVars {
+			if x == pfv {
+				pi = j
+			}
+		}
+		child := pfv.Parent()
+		bound = nil
+		for _, b := range pp.Blocks {
+			for _, in := range b.Instrs {
+				if mc, ok := in.(*ssa.MakeClosure); ok && mc.Fn == child && pi >= 0 && pi < len(mc.Bindings) {
+					bound = mc.Bindings[pi]
+				}
+			}
+		}
+		depth++
+	}
+	al, ok := bound.(*ssa.Alloc)
+	if !ok {
+		return
+	}
+	elem := al.Type().Underlying().(*types.Pointer).Elem()
+	if _, stable := stableCell(al); stable {
+		if _, isStruct := elem.Underlying().(*types.Struct); !isStruct {
+			v := e.define("fvval_"+mangle(fv.Name()), e.D.SortOf(elem), e.load(st, cell, elem))
+			e.stableFV[fv] = v
+			e.paramLikeFacts(v, elem)
+		}
+	}
+	okAll, n := true, 0
+	var visit func(v ssa.Value, d int)
+	visit = func(v ssa.Value, d int) {
+		if v.Referrers() == nil || d > 3 {
+			return
+		}
+		for _, r := range *v.Referrers() {
+			switch x := r.(type) {
+			case *ssa.Store:
+				if x.Addr != v {
+					continue
+				}
+				n++
+				switch sv := x.Val.(type) {
+				case *ssa.MakeClosure, *ssa.Function, *ssa.Alloc, *ssa.MakeInterface, *ssa.MakeMap:
+				case *ssa.Parameter:
+					if !envNonNilType(sv.Type()) {
+						okAll = false
+					}
+				default:
+					okAll = false
+				}
+			case *ssa.MakeClosure:
+				// captured by another closure: look at that closure's stores
+				for j, bnd := range x.Bindings {
+					if bnd == v {
+						cf := x.Fn.(*ssa.Function)
+						if j < len(cf.FreeVars) {
+							visit(cf.FreeVars[j], d+1)
+						}
+					}
+				}
+			}
+		}
+	}
+	visit(al, 0)
+	if !okAll || n == 0 {
+		return
+	}
+	val := e.load(st, cell, elem)
+	switch elem.Underlying().(type) {
+	case *types.Interface:
+		e.assume("true", not(eq(sx("if_tag", val), "0")))
+	case *types.Pointer, *types.Signature, *types.Map:
+		e.assume("true", not(eq(val, "0")))
+	}
+}
+
+func envNonNilType(t types.Type) bool {
+	switch t.Underlying().(type) {
+	case *types.Pointer:
+		return true
+	case *types.Interface:
+		return isNamed(t, "net/http", "ResponseWriter") || isNamed(t, "io", "Writer") || isNamed(t, "net/http", "Handler") || isNamed(t, "context", "Context") || isNamed(t, "io", "Reader")
+	}
+	return false
+}
+
+// stableCell: a local variable cell (possibly captured by closures) that is
+// assigned exactly once, in the function that declares it. Loads dominated by
+// that store yield the stored value whatever happens in between.
+func stableCell(al *ssa.Alloc) (*ssa.Store, bool) {
+	var stores []*ssa.Store
+	okAll := true
+	var visit func(v ssa.Value, d int)
+	visit = func(v ssa.Value, d int) {
+		if v.Referrers() == nil || d > 4 {
+			return
+		}
+		for _, r := range *v.Referrers() {
+			switch x := r.(type) {
+			case *ssa.Store:
+				if x.Addr == v {
+					stores = append(stores, x)
+				} else if x.Val == v {
+					okAll = false // the address itself escapes
+				}
+			case *ssa.UnOp, *ssa.DebugRef:
+			case *ssa.MakeClosure:
+				for j, bnd := range x.Bindings {
+					if bnd == v {
+						cf := x.Fn.(*ssa.Function)
+						if j < len(cf.FreeVars) {
+							visit(cf.FreeVars[j], d+1)
+						}
+					}
+				}
+			default:
+				okAll = false
+			}
+		}
+	}
+	visit(al, 0)
+	if !okAll || len(stores) != 1 || stores[0].Block().Parent() != al.Parent() {
+		return nil, false
+	}
+	return stores[0], true
 }
